@@ -12,6 +12,9 @@ MODULES = ["Curtsies.Properties.C19"]
 RULE = ("exhaustive: all ordered pairs of a 45-value pool (FmtStrs with the same text and different formatting, the same "
         "display and different run boundaries, explicit-False styles, empty runs, no runs; plain strs including the "
         "terminal strings of pool members) for ==, !=, hash, set and dict membership with the operands in either order; "
+        "values DERIVED through the API (every slice, int index, split pieces, lines, splices, sums, repeats, padded) from 4 "
+        "sources, each with the source untouched and with the source rendered/hashed/used as dict key/compared first, are "
+        "compared (==, !=, hash, str, set/dict membership, repr, eval(repr)) with the same runs rebuilt from scratch; "
         "repr/eval for every attribute set with styles absent/True (9*9*2^6 = 5184; all 59049 incl. explicit False in "
         "the thorough tier) on a two-run string, for the pool and for seeded random multi-run strings with quotes, "
         "backslashes, newlines, wide and combining characters. non-trivial = distinct pairs with at least one formatted "
@@ -57,6 +60,60 @@ def real(v):
     return mk_fmt(v[1]) if v[0] == "f" else v[1]
 
 
+DERIVED_SRC = [
+    [("hello", {"fg": 31})],
+    [("ab", {"fg": 31}), ("cde", {"bold": True, "bg": 44})],
+    [("a,b\nc,", {"underline": True}), ("d", {})],
+    [("xy", {}), ("", {"fg": 34}), ("zw", {"fg": 32, "invert": True})],
+]
+
+
+def derived_cases():
+    """values built through the API (slices, split pieces, lines, splices, sums, padded) from a source that was - or
+    was not - rendered / hashed / compared BEFORE deriving"""
+    out = []
+    for src in DERIVED_SRC:
+        n = sum(len(t) for t, _ in src)
+        hows = [["slice", a, b] for a in range(n + 1) for b in range(a, n + 1)]
+        hows += [["split", ","], ["split", "b"], ["splitlines", False], ["splitlines", True], ["splice", "XY", 1, 3],
+                 ["splice", "", 1, 2], ["add_slice", 1, 3], ["mul", 2], ["ljust", n + 2], ["index", 1], ["index", -1]]
+        for how in hows:
+            for obs in (False, True):
+                out.append(dict(op="derived", src=src, how=how, obs=obs))
+    return out
+
+
+def observe_first(x):
+    str(x), hash(x), {x: 1}, x == x, x == mk_fmt(wire.fmt_chunks(x)), repr(x), len(x), x.s
+    return x
+
+
+def derive(c):
+    """-> list of derived FmtStr values"""
+    src = mk_fmt(c["src"])
+    if c["obs"]:
+        observe_first(src)
+    h = c["how"]
+    k = h[0]
+    if k == "slice":
+        return [src[h[1]:h[2]]]
+    if k == "index":
+        return [src[h[1]]]
+    if k == "split":
+        return list(src.split(h[1]))
+    if k == "splitlines":
+        return list(src.splitlines(h[1]))
+    if k == "splice":
+        return [src.splice(h[1], h[2], h[3])]
+    if k == "add_slice":
+        return [src[h[1]:h[2]] + src, src + src[h[1]:h[2]]]
+    if k == "mul":
+        return [src * h[1], src[1:] * h[1]]
+    if k == "ljust":
+        return [src.ljust(h[1]), src[1:].rjust(h[1])]
+    raise KeyError(k)
+
+
 def mk_cases(ctx):
     cases = []
     P = pool()
@@ -65,6 +122,7 @@ def mk_cases(ctx):
             continue
         cases.append(dict(op="eq", a=list(a), b=list(b)))
     ctx.exhaustive.append("==/!=/hash/membership: %d ordered pairs of a %d-value pool" % (len(cases), len(P)))
+    cases += derived_cases()
     for k, f in P:
         if k == "f":
             cases.append(dict(op="eqother", f=f))
@@ -138,6 +196,11 @@ def line(c):
             a, b = b, a
         return "eq %s %s %s" % (wire.enc_chunks(a[1]), "fmt" if b[0] == "f" else "str",
                                 wire.enc_chunks(b[1]) if b[0] == "f" else wire.enc_tf(b[1]))
+    if op == "derived":
+        try:
+            return "hashkey %s" % wire.enc_chunks(wire.fmt_chunks(derive(c)[0]))
+        except Exception:  # noqa: BLE001
+            return "hashkey -"
     if op == "eqother":
         return "eq %s other x" % wire.enc_chunks(c["f"])
     if op == "eqbytes":
@@ -174,6 +237,8 @@ def _impl(c):
     op = c["op"]
     if op == "eq":
         return "ok %d" % (1 if (real(c["a"]) == real(c["b"])) else 0)
+    if op == "derived":
+        return "ok " + wire.enc_text(str(derive(c)[0]))
     if op == "eqbytes":
         return "ok %d" % (1 if mk_fmt(c["f"]) == c["b"].encode("latin-1") else 0)
     if op == "eqother":
@@ -238,8 +303,39 @@ def only_names_literals_plus(node):
     return None
 
 
+def coherent(d, i):
+    """an API-built value against the SAME runs rebuilt from scratch: ==, !=, hash, str, membership, repr, eval(repr)"""
+    fresh = mk_fmt(wire.fmt_chunks(d))
+    if not (d == fresh) or not (fresh == d) or (d != fresh):
+        return "derived value %d is not == a FmtStr freshly built from its own runs %r (str: %r vs %r)" % (
+            i, wire.fmt_chunks(d), str(d), str(fresh))
+    if hash(d) != hash(fresh) or str(d) != str(fresh):
+        return "derived value %d hashes / renders differently from the freshly built equal value" % i
+    if (d in {fresh}) is not True or ({fresh: 1}.get(d) != 1) or not (d == str(fresh)) or not (str(fresh) == d):
+        return "derived value %d: set/dict membership or comparison with its terminal string fails" % i
+    if d.s != fresh.s or len(d) != len(fresh) or repr(d) != repr(fresh):
+        return "derived value %d: .s / len / repr differ from the freshly built equal value" % i
+    rp = repr(d)
+    if rp and not any("\x1b[" in t for t, _ in wire.fmt_chunks(d)):
+        v = eval(rp, dict(NS))
+        if eff_cells_value(v) != wire.eff_cells_of_chunks(wire.fmt_chunks(d)):
+            return "derived value %d: eval(repr) shows %r, the value has %r" % (i, eff_cells_value(v), wire.eff_cells_of_chunks(wire.fmt_chunks(d)))
+        if isinstance(v, FmtStr) and not (str(v) == str(mk_fmt(wire.fmt_chunks(v)))):
+            return "derived value %d: eval(repr) is not coherent with its own runs" % i
+        if wire.eff_cells_of_chunks(wire.fmt_chunks(d)) and wire.fmt_chunks(d) == [(t, a) for t, a in wire.fmt_chunks(d) if all(x is not False for x in a.values())] \
+                and isinstance(v, FmtStr) and len(wire.fmt_chunks(d)) == 1 and not (v == d):
+            return "derived value %d: eval(repr(f)) != f although both show the same single run" % i
+    return None
+
+
 def _oracle(c):
     op = c["op"]
+    if op == "derived":
+        for i, d in enumerate(derive(c)):
+            w = coherent(d, i)
+            if w:
+                return w
+        return None
     if op == "eq":
         x, y = real(c["a"]), real(c["b"])
         same = str(x) == str(y)               # "the same terminal string" / "its terminal string is that str"
@@ -346,6 +442,7 @@ def check(ctx):
         ctx.note("D27 expectations unavailable: %r" % (e,))
     ctx.tie("C19/eq", [c for c in cases if c["op"] in ("eq", "eqother", "eqbytes")], line, impl)
     ctx.tie("C19/hash", [c for c in cases if c["op"] == "hash"], line, impl, None, canon_hash_model)
+    ctx.tie("C19/str-of-derived", [c for c in cases if c["op"] == "derived"], line, impl)
     reprs = [c for c in cases if c["op"] == "repr"]
     ctx.tie("C19/repr", reprs, line, impl)
     ctx.tie("C19/evalrepr", [dict(c, op="evalrepr") for c in reprs], line, impl, canon_val, canon_val)
